@@ -6,7 +6,8 @@
     non-negative counts.  PARTIAL: NumPy's choice of bin edges (np.histogram(bins="auto")) is an input of
     the model, not modelled; that is where the recorded finding D16 lives. *)
 From Coq Require Import QArith List ZArith.
-From IV Require Import QL Ecdf QFacts C16_step C16_lerp C16_interp C16_compose C16_hist.
+From Coq Require Import Permutation.
+From IV Require Import QL Ecdf QFacts C16_step C16_lerp C16_interp C16_compose C16_hist C16_sortlike.
 Import ListNotations.
 Open Scope Q_scope.
 
@@ -83,6 +84,22 @@ Print Assumptions C16_equal_size_rank_transfer.
 Theorem C16_every_iecdf_method_covered : forall m, proved_iecdf m.
 Proof. exact every_iecdf_method_proved. Qed.
 Print Assumptions C16_every_iecdf_method_covered.
+
+(** sort_array_like_another_one(x, y): a permutation of x, ordered like y (for every pair of positions with
+    y_i < y_j the value placed at i is not larger than the value placed at j), for equally long x and y with
+    arbitrary ties; the ranks argsort(argsort(y)) are a permutation of 0..n-1 *)
+Theorem C16_sort_like_permutation : forall x y, length x = length y -> Permutation (sort_like x y) x.
+Proof. exact sort_like_permutation. Qed.
+Print Assumptions C16_sort_like_permutation.
+
+Theorem C16_sort_like_ordered : forall x y i j, length x = length y -> (i < length y)%nat -> (j < length y)%nat ->
+  nth i y 0 < nth j y 0 -> nth i (sort_like x y) 0 <= nth j (sort_like x y) 0.
+Proof. exact sort_like_ordered. Qed.
+Print Assumptions C16_sort_like_ordered.
+
+Theorem C16_ranks_are_a_permutation : forall y, Permutation (map (rank_in y) (seq 0 (length y))) (seq 0 (length y)).
+Proof. exact ranks_permutation. Qed.
+Print Assumptions C16_ranks_are_a_permutation.
 
 (** histogram ECDF, for any non-decreasing edges and non-negative counts with a positive total *)
 Theorem C16_ecdf_hist_range : forall edges counts, sortedQ edges -> Forall (fun c => 0 <= c) counts ->
